@@ -77,10 +77,9 @@ theorem C16_gline_sets_ban (c : Ctx) (sid tid : Id) (m : IrcMsg) (s t : Session)
 
 /-- regenerated from applyConfig: the revision test, and the proposed entry's fields -/
 theorem C16_wiring :
-    Gen.Exprs.fact "config.revtest.init" = "got, want := revision, api.configRevision()" ∧
-    Gen.Exprs.fact "config.revtest" = "got != want" ∧
-    Gen.Exprs.fact "config.msg.Revision" = "revision + 1" ∧
-    Gen.Exprs.fact "config.msg.Data" = "body" ∧
+    Gen.Exprs.fact "config.revtest" = "param1 != recv.configRevision()" ∧
+    Gen.Exprs.fact "config.msg.Revision" = "param1 + 1" ∧
+    Gen.Exprs.fact "config.msg.Data" = "param2" ∧
     Gen.Exprs.fact "config.msg.Type" = "robust.Config" := by decide
 
 /-! ## Part 2 — only Config entries and GLINE write the configuration -/
@@ -218,5 +217,205 @@ theorem C16_example_config_entry :
     let e : Entry := { mkE 6 11 ⟨0, 0⟩ "…toml…" with rev := 4, cfg := some { maxChannels := 5 } }
     (resSt (applyEntry exSt e)).config = { maxChannels := 5, revision := 4 } ∧
     (resSt (applyEntry exSt e)).sessions = exSt.sessions := by decide +kernel
+
+/-! ## non-vacuity (audit): every theorem above with hypotheses, instantiated on a *reached* state
+
+`Ex.stR` is the result of running the model on the history `Ex.es0` from the initial state (a Config entry
+that names an operator, two registrations, two JOINs, an OPER); its invariant comes from `run_preserves_gp`. -/
+namespace Ex
+def mk (type id : Nat) (session : Id) (data : String) (addr : String := "") : Entry :=
+  { type := type, id := id, session := session, data := data, unixNano := 0, cmid := id, rev := 0,
+    remoteAddr := addr, cfg := none }
+def es0 : List Entry := [
+  { mk 6 1 ⟨0, 0⟩ "…toml…" with rev := 1, cfg := some { operators := [("root", "pw")] } },
+  mk 0 2 ⟨0, 0⟩ "authA", mk 2 3 ⟨2, 0⟩ "NICK alice", mk 2 4 ⟨2, 0⟩ "USER al 0 * :Alice",
+  mk 0 5 ⟨0, 0⟩ "authB", mk 2 6 ⟨5, 0⟩ "NICK Bob" "10.0.0.2", mk 2 7 ⟨5, 0⟩ "USER bo 0 * :Bob" "10.0.0.2",
+  mk 2 8 ⟨2, 0⟩ "JOIN #c", mk 2 9 ⟨5, 0⟩ "JOIN #c" "10.0.0.2", mk 2 10 ⟨2, 0⟩ "OPER root pw"]
+def aliceR : Session := { id := ⟨2, 0⟩, auth := "authA", loggedIn := true, nick := "alice", username := "al", realname := "Alice", channels := ["#c"], lastActivity := 10, lastNonPing := 10, operator := true, created := 2, modes := ['o'], svid := "0", lastClientMessageId := 10, ircPrefix := ⟨"alice", "al", "robust/0x2"⟩ }
+def bobR : Session := { id := ⟨5, 0⟩, auth := "authB", loggedIn := true, nick := "Bob", username := "bo", realname := "Bob", channels := ["#c"], lastActivity := 9, lastNonPing := 9, created := 5, svid := "0", lastClientMessageId := 9, ircPrefix := ⟨"Bob", "bo", "robust/0x5"⟩, remoteAddr := "10.0.0.2" }
+/-- the state reached from the initial state by `es0` (`run0`): revision 1, one operator configured -/
+def stR : St :=
+  { sessions := [(⟨2, 0⟩, aliceR), (⟨5, 0⟩, bobR)]
+    nicks := [("alice", ⟨2, 0⟩), ("bob", ⟨5, 0⟩)]
+    channels := [("#c", { name := "#c", nicks := [("alice", { chanop := true }), ("bob", {})], modes := ['n', 't'] })]
+    lastProcessed := ⟨2, 0⟩
+    config := { revision := 1, operators := [("root", "pw")] } }
+theorem run0 : runEntries {} es0 = .ok stR := by
+  have h1 : (runEntries {} es0).isOk = true := by decide +kernel
+  have h2 : runSt (runEntries {} es0) = stR := by decide +kernel
+  rw [← h2]; exact run_eq_of_isOk h1
+theorem wf0 : WfHistory {} es0 := wf_of_B (by decide +kernel)
+/-- `stR` is reachable, hence satisfies the full invariant -/
+theorem invR : GPInv stR := run_preserves_gp GPInv_init wf0 run0
+theorem wfR : SessWf stR := invR.sessWf
+theorem aliceR_stored : AMap.get stR.sessions ⟨2, 0⟩ = some aliceR := by decide
+theorem bobR_stored : AMap.get stR.sessions ⟨5, 0⟩ = some bobR := by decide
+def ctxOf (r : Res Ctx) : Ctx :=
+  match r with
+  | .ok c => c
+  | _ => { st := {}, msgid := 0 }
+theorem eq_ok_ctx {r : Res Ctx} (h : r.isOk = true) : r = .ok (ctxOf r) := by
+  cases r with
+  | ok a => rfl
+  | panic s => cases h
+  | declined w => cases h
+/-- the posted configuration of the examples -/
+def newCfg : Config := { operators := [("root", "pw2")], maxChannels := 5 }
+
+/-! ### part 1 -/
+
+/-- `C16_reject_nop`: a stale revision (0 instead of 1), a missing header and an unparsable body are all
+rejected (hypothesis), nothing is proposed -/
+example : (handlePostConfig stR (some 0) "…toml…" (some newCfg)).proposal = none :=
+  C16_reject_nop stR (some 0) "…toml…" (some newCfg) (by decide)
+example : (handlePostConfig stR none "…toml…" (some newCfg)).proposal = none :=
+  C16_reject_nop stR none "…toml…" (some newCfg) (by decide)
+example : (handlePostConfig stR (some 1) "garbage" none).proposal = none :=
+  C16_reject_nop stR (some 1) "garbage" none (by decide)
+
+/-- the entry the handler proposes for the current revision 1 -/
+def ePosted : Entry := ⟨6, 0, ⟨0, 0⟩, "…toml…", 0, 0, 2, "", some newCfg⟩
+/-- a second node that lags: it has applied only the first five entries of `es0` (Bob's session exists but has not registered) -/
+def stLag : St := runSt (runEntries {} (es0.take 5))
+/-- `C16_plus_one`: the update is accepted on `stR` (hypothesis); applied on the lagging node `stLag` it
+installs exactly the posted configuration with revision 2 -/
+example : ∃ st2', applyEntry stLag ePosted = .ok (st2', []) ∧ st2'.config.revision = 1 + 1 ∧
+    st2'.config = { newCfg with revision := 1 + 1 } ∧ st2'.sessions = stLag.sessions ∧ st2'.channels = stLag.channels :=
+  C16_plus_one stR "…toml…" newCfg ePosted rfl stLag
+example : (resSt (applyEntry stLag ePosted)).config = { operators := [("root", "pw2")], maxChannels := 5, revision := 2 } ∧
+    AMap.keys (resSt (applyEntry stLag ePosted)).sessions = [⟨2, 0⟩, ⟨5, 0⟩] := by decide +kernel
+
+/-- `C16_unparsable_skipped`: a Config entry whose text did not parse -/
+example : applyEntry stR { ePosted with cfg := none } = .ok (stR, []) :=
+  C16_unparsable_skipped stR { ePosted with cfg := none } rfl rfl
+
+/-- `C16_replicas_equal`: `stR` and the same node one entry later (Bob has been deleted, so the states
+differ) have equal configurations (hypothesis) and still do after the Config entry -/
+def stR' : St := resSt (applyEntry stR (mk 1 11 ⟨5, 0⟩ "expired"))
+example : ∃ a' b', applyEntry stR ePosted = .ok (a', []) ∧ applyEntry stR' ePosted = .ok (b', []) ∧ a'.config = b'.config :=
+  C16_replicas_equal stR stR' ePosted rfl (by decide +kernel)
+example : stR ≠ stR' ∧ (resSt (applyEntry stR ePosted)).config = (resSt (applyEntry stR' ePosted)).config := by decide +kernel
+
+/-- `C16_gline_sets_ban`: alice (IRC operator) bans Bob's address -/
+def cR : Ctx := { st := stR, msgid := 11 }
+def mGline : IrcMsg := ⟨none, "GLINE", ["bob", "spam"]⟩
+def cBanned : Ctx := { cR with st := { stR with config := { stR.config with banned := AMap.set stR.config.banned bobR.remoteAddr mGline.trailing } } }
+theorem killB_ok : (cmdKill cBanned ⟨2, 0⟩ mGline).isOk = true := by decide +kernel
+example : cmdGline cR ⟨2, 0⟩ mGline = .ok (ctxOf (cmdKill cBanned ⟨2, 0⟩ mGline)) :=
+  C16_gline_sets_ban cR ⟨2, 0⟩ ⟨5, 0⟩ mGline aliceR bobR "bob" _ rfl rfl rfl (by decide) rfl (by decide) (eq_ok_ctx killB_ok)
+example : (ctxOf (cmdGline cR ⟨2, 0⟩ mGline)).st.config.banned = [("10.0.0.2", "spam")] := by decide +kernel
+
+/-! ### part 2 -/
+
+/-- `C16_handlers_keep_config`: alice's KILL of Bob (a handler that changes a lot) on the reached state -/
+def mKill : IrcMsg := ⟨none, "KILL", ["bob", "bye"]⟩
+theorem kill_ok : (cmdKill cR ⟨2, 0⟩ mKill).isOk = true := by decide +kernel
+example : (ctxOf (cmdKill cR ⟨2, 0⟩ mKill)).st.config = stR.config :=
+  C16_handlers_keep_config (fname := "cmdKill") rfl (by decide) (c := cR) (sid := ⟨2, 0⟩) (m := mKill) rfl wfR (eq_ok_ctx kill_ok)
+/-- … and Bob's `JOIN #d` (creates a channel) -/
+def mJoin : IrcMsg := ⟨none, "JOIN", ["#d"]⟩
+theorem join_ok : (cmdJoin cR ⟨5, 0⟩ mJoin).isOk = true := by decide +kernel
+example : (ctxOf (cmdJoin cR ⟨5, 0⟩ mJoin)).st.config = stR.config :=
+  C16_handlers_keep_config (fname := "cmdJoin") rfl (by decide) (c := cR) (sid := ⟨5, 0⟩) (m := mJoin) rfl wfR (eq_ok_ctx join_ok)
+example : AMap.keys (ctxOf (cmdJoin cR ⟨5, 0⟩ mJoin)).st.channels = ["#c", "#d"] := by decide +kernel
+
+theorem gline_ok : (cmdGline cR ⟨2, 0⟩ mGline).isOk = true := by decide +kernel
+theorem glineBob_ok : (cmdGline cR ⟨5, 0⟩ ⟨none, "GLINE", ["alice", "spam"]⟩).isOk = true := by decide +kernel
+/-- `C16_gline_only_bans`: hypotheses hold for the operator's GLINE (second disjunct: one ban is set) and
+for Bob's GLINE (first disjunct: refused) -/
+example : (ctxOf (cmdGline cR ⟨2, 0⟩ mGline)).st.config = stR.config ∨
+    ∃ s p0 tid t, AMap.get stR.sessions ⟨2, 0⟩ = some s ∧ s.operator = true ∧ param mGline 0 = .ok p0 ∧
+      AMap.get stR.nicks (nickToLower p0) = some tid ∧ AMap.get stR.sessions tid = some t ∧ t.remoteAddr ≠ "" ∧
+      (ctxOf (cmdGline cR ⟨2, 0⟩ mGline)).st.config =
+        { stR.config with banned := AMap.set stR.config.banned t.remoteAddr mGline.trailing } :=
+  C16_gline_only_bans (c := cR) wfR (eq_ok_ctx gline_ok)
+example : (ctxOf (cmdGline cR ⟨2, 0⟩ mGline)).st.config ≠ stR.config ∧
+    (ctxOf (cmdGline cR ⟨5, 0⟩ ⟨none, "GLINE", ["alice", "spam"]⟩)).st.config = stR.config := by decide +kernel
+/-- `C16_gline_rest_kept` for both -/
+example : { (ctxOf (cmdGline cR ⟨2, 0⟩ mGline)).st.config with banned := [] } = { stR.config with banned := [] } :=
+  (C16_gline_rest_kept (c := cR) wfR (eq_ok_ctx gline_ok)).1
+example : (ctxOf (cmdGline cR ⟨5, 0⟩ ⟨none, "GLINE", ["alice", "spam"]⟩)).st.config = stR.config :=
+  (C16_gline_rest_kept (c := cR) wfR (eq_ok_ctx glineBob_ok)).2 bobR bobR_stored rfl
+
+/-- the same lines as committed entries -/
+def eGline : Entry := mk 2 11 ⟨2, 0⟩ "GLINE bob :spam"
+def eGlineBob : Entry := mk 2 11 ⟨5, 0⟩ "GLINE alice :spam" "10.0.0.2"
+def eKill : Entry := mk 2 11 ⟨2, 0⟩ "KILL bob :bye"
+def eDel : Entry := mk 1 11 ⟨5, 0⟩ "expired"
+theorem eGline_ok : (applyEntry stR eGline).isOk = true := by decide +kernel
+theorem eGlineBob_ok : (applyEntry stR eGlineBob).isOk = true := by decide +kernel
+theorem eKill_ok : (applyEntry stR eKill).isOk = true := by decide +kernel
+theorem eDel_ok : (applyEntry stR eDel).isOk = true := by decide +kernel
+/-- `C16_entry_config_cases`: for the operator's GLINE entry (second disjunct) and for a DeleteSession entry -/
+example : (resSt (applyEntry stR eGline)).config = stR.config ∨
+    ∃ m s addr reason, eGline.type = 2 ∧ parseMessage eGline.data = some m ∧ toUpper m.command = "GLINE" ∧
+      AMap.get stR.sessions eGline.session = some s ∧ s.operator = true ∧
+      (resSt (applyEntry stR eGline)).config = { stR.config with banned := AMap.set stR.config.banned addr reason } :=
+  C16_entry_config_cases (e := eGline) wfR (entryOk_of_B (by decide)) (by decide) (eq_ok_of_isOk eGline_ok)
+example : (resSt (applyEntry stR eGline)).config = { stR.config with banned := [("10.0.0.2", "spam")] } := by decide +kernel
+example : (resSt (applyEntry stR eDel)).config = stR.config :=
+  (C16_entry_config_cases (e := eDel) wfR (entryOk_of_B (by decide)) (by decide) (eq_ok_of_isOk eDel_ok)).resolve_right
+    (fun ⟨_, _, _, _, h2, _⟩ => absurd h2 (by decide))
+
+/-- the hypothesis `hng` of `C16_entry_keeps_config` from Booleans: the line is not a GLINE, or the session
+is not an IRC operator -/
+theorem hng_of_B {st : St} {e : Entry}
+    (h : (match parseMessage e.data with
+          | some m => toUpper m.command != "GLINE"
+          | none => true) = true ∨
+         (match AMap.get st.sessions e.session with
+          | some s => !s.operator
+          | none => true) = true) :
+    ¬(e.type = 2 ∧ ∃ m s, parseMessage e.data = some m ∧ toUpper m.command = "GLINE" ∧
+      AMap.get st.sessions e.session = some s ∧ s.operator = true) := by
+  rintro ⟨_, m, s, hm, hc, hs, hop⟩
+  rw [hm, hs] at h
+  rcases h with h | h
+  · simp [hc] at h
+  · simp [hop] at h
+/-- `C16_entry_keeps_config`: the operator's KILL (not a GLINE), Bob's GLINE (not an operator), DeleteSession -/
+example : (resSt (applyEntry stR eKill)).config = stR.config :=
+  C16_entry_keeps_config (e := eKill) wfR (entryOk_of_B (by decide)) (by decide) (hng_of_B (Or.inl (by decide +kernel)))
+    (eq_ok_of_isOk eKill_ok)
+example : (resSt (applyEntry stR eGlineBob)).config = stR.config :=
+  C16_entry_keeps_config (e := eGlineBob) wfR (entryOk_of_B (by decide)) (by decide) (hng_of_B (Or.inr (by decide +kernel)))
+    (eq_ok_of_isOk eGlineBob_ok)
+example : (resSt (applyEntry stR eDel)).config = stR.config :=
+  C16_entry_keeps_config (e := eDel) wfR (entryOk_of_B (by decide)) (by decide) (fun h => by cases h.1)
+    (eq_ok_of_isOk eDel_ok)
+
+/-- `C16_config_entry_frame` on the reached state with the posted entry -/
+theorem ePosted_ok : (applyEntry stR ePosted).isOk = true := by decide +kernel
+example : resSt (applyEntry stR ePosted) = { stR with config := { newCfg with revision := 2 } } ∧
+    resOut (applyEntry stR ePosted) = [] ∧ (resSt (applyEntry stR ePosted)).sessions = stR.sessions ∧
+    (resSt (applyEntry stR ePosted)).nicks = stR.nicks ∧ (resSt (applyEntry stR ePosted)).channels = stR.channels ∧
+    (resSt (applyEntry stR ePosted)).svsholds = stR.svsholds ∧
+    (resSt (applyEntry stR ePosted)).lastProcessed = stR.lastProcessed :=
+  C16_config_entry_frame (e := ePosted) (cfg := newCfg) rfl rfl (eq_ok_of_isOk ePosted_ok)
+
+/-- a continuation without Config entries and GLINEs: Bob talks, joins `#d`, is killed by alice, a message of
+death, a new session that registers -/
+def es1 : List Entry := [mk 2 11 ⟨5, 0⟩ "PRIVMSG #c :hi" "10.0.0.2", mk 2 12 ⟨5, 0⟩ "JOIN #d" "10.0.0.2",
+  mk 2 13 ⟨2, 0⟩ "KILL bob :bye", mk 5 14 ⟨2, 0⟩ "boom", mk 0 15 ⟨0, 0⟩ "authC", mk 2 16 ⟨15, 0⟩ "NICK carol",
+  mk 2 17 ⟨15, 0⟩ "USER c 0 * :Carol"]
+theorem run1_ok : (runEntries stR es1).isOk = true := by decide +kernel
+theorem wf1 : WfHistory stR es1 := wf_of_B (by decide +kernel)
+theorem quiet1 : ∀ e ∈ es1, e.type ≠ 6 ∧ ∀ m, parseMessage e.data = some m → toUpper m.command ≠ "GLINE" := by
+  have h : es1.all (fun e => e.type != 6 && (match parseMessage e.data with
+      | some m => toUpper m.command != "GLINE"
+      | none => true)) = true := by decide +kernel
+  intro e he
+  have h1 := List.all_eq_true.1 h e he
+  simp only [Bool.and_eq_true, bne_iff_ne, ne_eq] at h1
+  refine ⟨h1.1, fun m hm => ?_⟩
+  have h2 := h1.2
+  rw [hm] at h2
+  simpa using h2
+/-- `C16_history_keeps_config` along `es1` from the reached state (all four hypotheses discharged) -/
+example : (runSt (runEntries stR es1)).config = stR.config :=
+  C16_history_keeps_config wfR wf1 quiet1 (run_eq_of_isOk run1_ok)
+example : (runSt (runEntries stR es1)).sessions.map (fun p => (p.1, p.2.nick)) = [(⟨2, 0⟩, "alice"), (⟨15, 0⟩, "carol")] ∧
+    AMap.keys (runSt (runEntries stR es1)).channels = ["#c"] := by decide +kernel
+end Ex
 
 end Robust.Props.C16
